@@ -83,12 +83,53 @@ VGrey(e) ==
          /\ (y = WhiteY(full, c.n) => \A k \in 1..3 : Near(o[k], One, Tol1em6))})
 
 -------------------------------------------------------------------------------------
+\* C03  ev = "tf": one curve, one direction, pixels of samples.  x, y: lists of <<fx,fx,fx>>
+InUnit(x) == IsNum(x) /\ x[1] >= 0 /\ Cmp(x, One) <= 0
+VTf(e) ==
+  IF ~(e.tc \in Tc14) THEN <<"C03.domain">>
+  ELSE IF e.res # "ok" THEN <<"C03.result", e.res>>
+  ELSE IF Len(e.y) # Len(e.x) THEN <<"C03.shape">>
+  ELSE IF e.tc = 8 THEN FirstBad("C03.linear-bits", {i \in 1..Len(e.x) : e.yb[i] # e.xb[i]})
+  ELSE FirstBad("C03.curve",
+         {i \in 1..Len(e.x) : \E k \in 1..3 :
+            /\ InUnit(e.x[i][k])
+            /\ ~(IsNum(e.y[i][k]) /\ NearAny(e.y[i][k], CurveRef(e.tc, e.dir, e.x[i][k]), CurveTol(e.tc, e.dir)))})
+
+\* C03  ev = "tfa": the aliases of one curve on a shared input: bit-identical results
+VTfa(e) == FirstBad("C03.alias-bits", {k \in 2..Len(e.yb) : e.yb[k] # e.yb[1]})
+
+\* C10  ev = "tfrt": gamma -> linear -> gamma
+VTfrt(e) ==
+  IF ~(e.tc \in Tc14) THEN <<"C10.domain">>
+  ELSE IF e.res # "ok" THEN <<"C10.result", e.res>>
+  ELSE IF Len(e.z) # Len(e.x) THEN <<"C10.shape">>
+  ELSE FirstBad("C10.roundtrip",
+         {i \in 1..Len(e.x) : \E k \in 1..3 :
+            /\ InUnit(e.x[i][k])
+            /\ ~(IsNum(e.z[i][k]) /\ Near(e.z[i][k], e.x[i][k], RtTol(e.tc)))})
+
+\* C16  ev = "tfanchor": 0 -> 0 within 1e-6 and 1 -> 1 within the C03 budget, for every non-log curve
+VTfAnchor(e) ==
+  IF e.res # "ok" THEN <<"C16.result", e.res>>
+  ELSE IF e.tc \in LogCurves THEN OK
+  ELSE FirstBad("C16.curve-anchor",
+         {i \in 1..Len(e.x) : \E k \in 1..3 :
+            LET x == e.x[i][k]  y == e.y[i][k] IN
+            ~ /\ IsNum(y)
+              /\ (x = Z => Near(y, Z, Tol1em6))
+              /\ (x = One => Near(y, One, CurveTol(e.tc, e.dir)))})
+
+-------------------------------------------------------------------------------------
 Verdict(e) ==
   CASE e.ev = "dec"    -> VDec(e)
     [] e.ev = "enc"    -> VEnc(e)
     [] e.ev = "rt"     -> VRt(e)
     [] e.ev = "rt_bad" -> VRtBad(e)
     [] e.ev = "grey"   -> VGrey(e)
+    [] e.ev = "tf"     -> VTf(e)
+    [] e.ev = "tfa"    -> VTfa(e)
+    [] e.ev = "tfrt"   -> VTfrt(e)
+    [] e.ev = "tfanchor" -> VTfAnchor(e)
     [] OTHER           -> <<"unknown-event", e.ev>>
 
 Judge(i) == LET v == Verdict(Rec[i]) IN
